@@ -1,6 +1,7 @@
 import AmrK.HeaderProofs
 import AmrK.Codec
 import AmrK.CellHCodec
+import AmrK.HeaderCodec
 /-! # C02 — opening a plotfile exposes exactly the metadata its headers state
 
 Line/token model of `PlotfileCooker.__init__` + `read_boxes` (`Header.parse`) and of
@@ -37,6 +38,38 @@ theorem fab_header_codec (lo hi : List Int) (nf : Nat) (hlo : lo ≠ []) (hhi : 
 theorem level_header_parse_render (nf : Nat) (rows : List Taste.BoxRow) (hg : ∀ r ∈ rows, r.Good) :
     Taste.parseCellH (Taste.renderCellH nf rows) nf = .ok (rows.map Taste.BoxRow.entry) :=
   Taste.parseCellH_render nf rows hg
+
+/-- **`parse ∘ render = id` for the global header**: the text printed for any header content `H` -
+    any number of fields, dimensions, levels and boxes, float tokens kept verbatim, trailing blanks as
+    AMReX or the toolbox print them - is read back as exactly that content (`H.meta`) -/
+theorem global_header_parse_render (H : HData) (hg : H.Good) :
+    parse (render H) none = .ok (H.meta H.levels.length) := Header.parse_render H hg
+
+/-- **under a level limit `l` within the header's levels the same metadata is exposed, the
+    per-level tables cut after level `l`** -/
+theorem global_header_limit (H : HData) (hg : H.Good) (l : Nat) (hl : l < H.levels.length) :
+    parse (render H) (some (l : Int)) = .ok (H.meta (l + 1)) := Header.parse_render_limit H hg l hl
+
+/-- **a level limit above the finest level is refused** -/
+theorem global_header_limit_above (H : HData) (hg : H.Good) (l : Int) (hl : (H.levels.length : Int) ≤ l) :
+    parse (render H) (some l) = .refused "limit" := Header.parse_render_limit_above H hg l hl
+
+/-- with pairwise distinct names the exposed field table is the header's list of names with their
+    positions -/
+theorem field_table_distinct (names : List Bytes) (h : names.Nodup) : tableOf names = names.zipIdx :=
+  Header.tableOf_nodup names h
+
+/-- the hypothesis `H.Good` is decided on real headers by the executable `H.goodB` of the driver -/
+theorem global_header_hypothesis_decidable (H : HData) (h : H.goodB = true) : H.Good := HData.goodB_sound H h
+
+/-- non-vacuity: a two-level, two-field 2D header satisfies the hypothesis, and its text is read back -/
+example : (⟨ofString "HyperCLaw-V1.1", [ofString "a", ofString "b"], 2, ofString "0.5", [ofString "0.0", ofString "-1.0"],
+      [ofString "1.0", ofString "0.0"], [2], [[7, 7], [15, 15]], [3, 3],
+      [[ofString "0.125", ofString "0.125"], [ofString "0.0625", ofString "0.0625"]], ofString "0",
+      [⟨[[(ofString "0.0", ofString "1.0"), (ofString "-1.0", ofString "0.0")]], ofString "0.5", ofString "3", ofString "Level_0", ofString "Cell"⟩,
+       ⟨[[(ofString "0.0", ofString "0.5"), (ofString "-1.0", ofString "-0.5")], [(ofString "0.5", ofString "1.0"), (ofString "-1.0", ofString "-0.5")]],
+        ofString "0.5", ofString "3", ofString "Level_1", ofString "Cell"⟩],
+      [[32], [32], [], [], [32]], [[32], []]⟩ : HData).goodB = true := by decide +kernel
 
 /-- non-vacuity: the names a, b, a, a are exposed as a, b, a_2, a_3 with indices 0..3 -/
 example :
